@@ -5,26 +5,8 @@
    the graph-edit passes (direct_connect_outputs, two_way_fanout), which move or
    add nets instead of rewriting them in place, preserve behaviour. *)
 From PyRTL Require Import Pass.Lower Pass.RewriteSound.
+From PyRTL Require Import Pass.LowerHyps.
 From Coq Require Import ZifyBool.
-
-(* destinations written during the combinational phase *)
-Definition cdests (ns : list net) : list wid :=
-  map ndest (filter (fun n => is_comb (nop n)) ns).
-
-(* in list order: a combinational net has a legal arity, its destination is not
-   written again later (single driver), and none of its arguments is written by
-   itself or later (written before read).  Decidable; evaluated by the harness. *)
-Fixpoint seq_okb (ns : list net) : bool :=
-  match ns with
-  | [] => true
-  | n :: r =>
-      (if is_comb (nop n)
-       then arity_ok (nop n) (length (nargs n))
-            && negb (mem_in (ndest n) (cdests r))
-            && forallb (fun a => negb (mem_in a (cdests (n :: r)))) (nargs n)
-       else true)
-      && seq_okb r
-  end.
 
 Definition stable (nl : netlist) (st : state) (ns : list net) (v : wid -> Z) : Prop :=
   forall n, In n ns -> is_comb (nop n) = true -> forall w, exec_spec nl st v n w = v w.
